@@ -372,7 +372,20 @@ func (c *Ctx) condsAt(fd *ast.FuncDecl, target ast.Node) []condLit {
 			result, found = append([]condLit{}, stack...), true
 		}
 	}
-	walkList(fd.Body.List)
+	// the target sits inside a function literal: the conditions in force are those of the literal's own body
+	// (it runs when it is called, not where it is written)
+	var inner *ast.FuncLit
+	ast.Inspect(fd.Body, func(n ast.Node) bool {
+		if fl, ok := n.(*ast.FuncLit); ok && fl.Body.Pos() <= target.Pos() && target.End() <= fl.Body.End() {
+			inner = fl // the innermost one is visited last
+		}
+		return true
+	})
+	if inner != nil {
+		walkList(inner.Body.List)
+	} else {
+		walkList(fd.Body.List)
+	}
 	// short circuit: inside the right operand of a && b, a holds; inside the right operand of a || b, a is false
 	ast.Inspect(fd.Body, func(n ast.Node) bool {
 		be, ok := n.(*ast.BinaryExpr)
